@@ -148,6 +148,13 @@ pub fn body_menu(full: bool) -> Vec<L> {
     for s in strings_basic(full, 509) {
         v.push(L::Software(s));
     }
+    if full {
+        // texts ending in / containing U+0000, of every length modulo 4 (the attribute length is the text's length: a NUL
+        // inside it is text, not padding)
+        for s in ["abc\u{0}", "abcdefg\u{0}", "a\u{0}\u{0}\u{0}", "\u{0}\u{0}\u{0}\u{0}", "ab\u{0}", "a\u{0}", "abc\u{0}d", "\u{0}"] {
+            v.push(L::Software(s.into()));
+        }
+    }
     // PADDING
     v.push(L::Padding("".into()));
     v.push(L::Padding(rep('p', 1000)));
